@@ -71,6 +71,50 @@ def stage_locality(ctx):
     return st
 
 
+def stage_locality_runtime(ctx):
+    """the same through read_runtime_data() of real ET / DT / ES objects on the simulated inverter: with a sensor's own registers kept, every OTHER
+    register of the inverter set to 0x0000, to 0xffff and to random words -- the value reported for that sensor must not move"""
+    st = Stage('runtime-locality-monitor')
+    import asyncio
+    from .. import invmon as IM
+    goodwe = SI.reload_goodwe()
+    rng = ctx.rng
+    SKIP = ('Calculated', 'EnumCalculated')
+    objs = [('DT three-phase', lambda: IM.make_dt(goodwe, IM.DT_SERIALS['three-phase'], seed=rng.randrange(1 << 30)), [(30100, 73), (30195, 15)], {}),
+            ('DT single-phase', lambda: IM.make_dt(goodwe, IM.DT_SERIALS['single-phase'], seed=rng.randrange(1 << 30)), [(30100, 73), (30195, 15)], {}),
+            ('ET 10 kW', lambda: IM.make_et(goodwe, IM.ET_SERIALS['205 three-phase'], 10000, (), 2, seed=rng.randrange(1 << 30)), [(35100, 125), (37000, 24), (36000, 125), (35301, 61)], {35184: 2}),
+            ('ET 25 kW', lambda: IM.make_et(goodwe, IM.ET_SERIALS['2-battery 3-MPPT'], 25000, (), 2, seed=rng.randrange(1 << 30)), [(35100, 125), (37000, 24), (39000, 24), (36000, 125), (35301, 61)], {35184: 2})]
+    for name, mk, blocks, fixed in objs:
+        inv, sim = mk()
+        asyncio.run(inv.read_device_info())
+        for a, w in fixed.items(): sim.set(a, w)
+        allregs = [r for first, cnt in blocks for r in range(first, first + cnt)]
+        base = {r: sim.word(r) for r in allregs}
+        base[allregs[0]] = 0x1802; base[allregs[0] + 1] = 0x1c0c; base[allregs[0] + 2] = 0x1e0f      # a valid timestamp
+        for r, w in base.items(): sim.set(r, w)
+        try: data0 = asyncio.run(inv.read_runtime_data())
+        except Exception as ex:      # noqa
+            st.violation('runtime-read-fails', f'{name}: read_runtime_data() raises {type(ex).__name__}: {ex}', dict(object=name)); continue
+        # an id listed twice (ET meter energies) is reported from its LAST definition, as dict.update / _map_response do
+        sensors = [x for x in {y.id_: y for y in inv.sensors()}.values() if type(x).__name__ not in SKIP and x.id_ in data0]
+        if not ctx.deep: sensors = rng.sample(sensors, min(len(sensors), 40))
+        for x in sensors:
+            own = set(range(x.offset, x.offset + max(1, (x.size_ + 1) // 2)))
+            if type(x).__name__ == 'EnumBitmap22': own |= {x._offsetL}
+            for label, fill in (('0x0000', lambda r: 0), ('0xffff', lambda r: 0xffff), ('random words', lambda r: rng.randrange(65536))):
+                for r in allregs:
+                    sim.set(r, base[r] if (r in own or r in fixed or r < allregs[0] + 3) else fill(r))
+                st.case((name, x.id_, label), sample=dict(object=name, sensor=x.id_, others=label) if len(st.samples) < 3 else None)
+                try: data1 = asyncio.run(inv.read_runtime_data())
+                except Exception as ex:      # noqa
+                    st.violation('runtime-read-fails', f'{name}: read_runtime_data() raises {type(ex).__name__} when the registers other than those of {x.id_} hold {label}', dict(object=name, sensor=x.id_, others=label)); continue
+                if x.id_ in data1 and not IM.same(data0[x.id_], data1[x.id_]) and repr(data0[x.id_]) != repr(data1[x.id_]):
+                    st.violation('not-local-runtime', f'{name}: read_runtime_data()[{x.id_!r}] is {data0[x.id_]!r}, but {data1[x.id_]!r} when only the registers of OTHER sensors change (to {label}); '
+                                                      f'own registers {sorted(own)} unchanged', dict(object=name, sensor=x.id_, others=label, own_registers=sorted(own)))
+            for r in allregs: sim.set(r, base[r])
+    return st
+
+
 SPEC = dict(
     level='proof',
     manifest=dict(
@@ -85,7 +129,7 @@ SPEC = dict(
              'interpretation" of the 4/6/8-byte classes is the model itself, compared with the code.',
         technique='Coq proof on a hand model + generated tables + exhaustive field correspondence + locality monitor',
         design_ref='DESIGN.md section 5 (C12)'),
-    stages=[SP.stage_tables, SP.stage_fields, stage_locality],
+    stages=[SP.stage_tables, SP.stage_fields, stage_locality, stage_locality_runtime],
     theorems=['C12_value_from_own_bytes', 'C12_other_registers_do_not_matter', 'C12_two_word_bitmaps_read_their_two_words', 'C12_all_table_entries_classified',
               'C12_declared_sizes', 'C12_modbus_position', 'C12_voltage_current', 'C12_frequency', 'C12_temperature', 'C12_energy', 'C12_power_integer'],
     rule='as C11 for the correspondence; locality monitor: every sensor of the Modbus tables x random blocks x randomised complement x shifted windows',
